@@ -37,9 +37,6 @@ PROP = dict(
         "Grow with a negative argument (shrinks the capacity, possibly below the length or below zero) and NewBitString with a "
         "negative size are outside the model; On/Off at a position between the written length and the capacity are "
         "accepted by the code and dirty the buffer tail (theorem on_beyond_len_witness states the limit)",
-        "cell_ops_sequence states equal outcomes (panics included) and related heaps; that no panic occurs at all is a theorem "
-        "for bit-string operations (no_panic) but not for CopyRemaining inside arbitrary aliased heaps (its two internal "
-        "`panic(err)` calls are modelled, never observed in the correspondence runs)",
         "value-range conditions that remain in Op.WF / ZOp.WF: uint64/int64 ranges given by the Go types, WriteInt width <= 64, "
         "WriteBigInt with a representable value (width >= 1), WriteBigUint with a non-negative value, source bit strings that "
         "hold their bits; outside them the model is compared with Go but the specification is not stated",
@@ -63,7 +60,7 @@ PROP = dict(
                "(ReadBigUint partial byte, ReadBits dirty tail, parsed-cell buffer, WriteInt width 0/1) and the non-ASCII "
                "Fift-hex acceptance were reproduced on the Go code, repaired by fix: commits, and the model describes the "
                "repaired code; witnesses of the old behaviour are theorems about the `...Old` definitions and corpus lines. "
-               "Also theorems: ToFiftHex = hex text of the abstract bits and BitStringFromFiftHex(ToFiftHex s) = the same bits for every length and content (fifthex_roundtrip); the first ceil(len/8) buffer bytes are the canonical packing of the bits (canonical_buffer). GetTopUppedArray = canonical topped-up bytes, SetTopUppedArray inverts it, and the repaired Cell.setTopUppedArray establishes the invariant with capacity 1023 for any parsed data (parsed_cell_inv). CopyRemaining = unread bits + unread references with the source cursors unchanged (copyRemaining_spec). Round 2: int arguments of any sign (zop_refines, zops_sequence, negative_read_errs), On/Off (onOff_refines), the exact language of BitStringFromFiftHex incl. lower case and every malformed text (fifthex_parse_spec), SetTopUppedArray on any tagged array and its error path, and cell-level sequences over a heap of cells with explicit aliasing (cell_ops_sequence, cell_ref_limits, cell_nextRef_resets_child).",
+               "Also theorems: ToFiftHex = hex text of the abstract bits and BitStringFromFiftHex(ToFiftHex s) = the same bits for every length and content (fifthex_roundtrip); the first ceil(len/8) buffer bytes are the canonical packing of the bits (canonical_buffer). GetTopUppedArray = canonical topped-up bytes, SetTopUppedArray inverts it, and the repaired Cell.setTopUppedArray establishes the invariant with capacity 1023 for any parsed data (parsed_cell_inv). CopyRemaining = unread bits + unread references with the source cursors unchanged (copyRemaining_spec). Round 2: int arguments of any sign (zop_refines, zops_sequence, negative_read_errs), On/Off (onOff_refines), the exact language of BitStringFromFiftHex incl. lower case and every malformed text (fifthex_parse_spec), SetTopUppedArray on any tagged array and its error path, and cell-level sequences over a heap of cells with explicit aliasing (cell_ops_sequence, cell_ref_limits, cell_nextRef_resets_child) and cell_no_panic (no cell-level sequence without Grow/Append panics: CopyRemaining's internal panics are unreachable also with shared / self-referencing cells).",
     level_note="trusted: Lean kernel; the hand model's fidelity to boc/bitString.go and boc/cell.go is checked, not proved "
                "(>= 15 000 compared lines per quick run, 196 000 thorough, incl. the exhaustive offset x width grid); "
                "translator X4 for minBitsRequired; Go runtime semantics listed in trusted_base",
